@@ -90,6 +90,11 @@ def run(ck):
                 fa, fb = a.scaled(1e-3).translated(4000 + 3000j), b.scaled(1e-3).translated(4000 + 3000j)
                 ck.case(fp=('pair-far', q, str(pr)), nontrivial=True)
                 report_case(ck, tag + ' scaled 1e-3 at 4000+3000j', fa, fb, [(t1, t2, fa.point(t1))], {'pr': pr, 'q': q, 'far': True}, exact_count=1)
+                # the same pair drawn tiny and huge about the origin: crossing parameters do not depend on the unit of length
+                for sc_ in (1e-6, 1e6):
+                    ta, tb = a.scaled(sc_), b.scaled(sc_)
+                    ck.case(fp=('pair-scale', sc_, q, str(pr)), nontrivial=True)
+                    report_case(ck, tag + ' scaled %g' % sc_, ta, tb, [(t1, t2, ta.point(t1))], {'pr': pr, 'q': q, 'scale': sc_}, exact_count=1)
         ck.sample('constructed/Q=%d' % q, cases[0])
     ck.count('skipped_small_angle', skipped)
     # point-symmetric pairs derived from the model's curves: a curve against its own half-turn about M = (B(1/3) + B(2/3))/2 crosses it at the
